@@ -234,6 +234,7 @@ func (w *worker) runInstance(req *InstanceReq) (res *InstanceResult) {
 		}
 	}
 	res.Solver = s.stats
+	res.DomDecided = x.domDecided
 	res.SymFns = sortedKeys(x.symFns)
 	return
 }
